@@ -19,9 +19,11 @@ def alphabet(full=True):
         for v in (b"1", b"x"):
             A.append({"op": "set", "k": k, "v": v, "nr": False})
         A.append({"op": "set", "k": k, "v": b"7", "nr": None})            # default_noreply decides
+        A.append({"op": "set", "k": k, "v": b"", "nr": False})            # an empty value is a value, not a miss
         for op in ("add", "replace", "append", "prepend"):
             A.append({"op": op, "k": k, "v": b"1", "nr": False})
         A.append({"op": "cas", "k": k, "v": b"c", "cas": "FRESH"})
+        A.append({"op": "cas", "k": k, "v": b"", "cas": "FRESH"})
         A.append({"op": "cas", "k": k, "v": b"c", "cas": b"99999"})
         A.append({"op": "get", "k": k})
         A.append({"op": "gets", "k": k})
@@ -66,7 +68,7 @@ def alphabet(full=True):
         for c in A:
             if c["op"] == "ADVANCE" and c["dt"] not in (99, 100):
                 continue
-            if c.get("k") == "b" and c["op"] not in ("set", "get"):
+            if c.get("k") == "b" and (c["op"] not in ("set", "get") or c.get("v") == b""):
                 continue
             if c["op"] in ("append", "prepend", "replace", "decr", "gat", "gats", "gets_many") and not (c["op"] in ("replace",) and c.get("nr")):
                 continue
@@ -75,11 +77,18 @@ def alphabet(full=True):
     return A
 
 
-def run_history(Client, hist, dnr, pfx, idx, out):
+def run_history(Client, hist, dnr, pfx, idx, out, kind="Client"):
     srv = RefServer()
     world = World(server=lambda conn, data: [srv.feed(conn.id, data)])
     world.tag = 0
-    client = Client(("h", 1), socket_module=FakeSocketModule(world), default_noreply=dnr, key_prefix=pfx)
+    if kind == "Client":
+        client = Client(("h", 1), socket_module=FakeSocketModule(world), default_noreply=dnr, key_prefix=pfx)
+    elif kind == "Pooled":
+        from pymemcache.client.base import PooledClient
+        client = PooledClient(("h", 1), socket_module=FakeSocketModule(world), default_noreply=dnr, key_prefix=pfx, max_pool_size=2)
+    else:
+        from pymemcache.client.hash import HashClient
+        client = HashClient([("h", 1)], socket_module=FakeSocketModule(world), default_noreply=dnr, key_prefix=pfx, use_pooling=(kind == "HashPooled"))
     cfg = cfg_tok(dnr=dnr, pfx=pfx)
     spec_lines = [f"srv.reset id=1"]
     cs_lines = [f"srv.reset id=2"]
@@ -113,7 +122,7 @@ def run_history(Client, hist, dnr, pfx, idx, out):
             now = t
         feed_lines.append(f"srv.feed id=3 data={hx(data)}")
         feed_want.append("ok " + hx(reply))
-    out.append((idx, dnr, pfx, steps, spec_lines, cs_lines, feed_lines, feed_want))
+    out.append((idx, dnr, pfx, steps, spec_lines, cs_lines, feed_lines, feed_want, kind))
 
 
 def main(argv):
@@ -147,29 +156,40 @@ def main(argv):
     out = []
     for i, h in enumerate(hists):
         run_history(Client, h, dnr=(i % 2 == 0), pfx=(b"" if i % 3 else b"ns:"), idx=i, out=out)
+    # the same contract through the wrapper classes (same histories, sampled): PooledClient, single-server HashClient plain and pooled
+    nwrap = 0
+    for i, h in enumerate(hists):
+        if len(h) <= 3 and i % 7 and not ctx.thorough:
+            continue
+        if any(c["op"] in ("flush_all",) for c in h):
+            continue          # HashClient.flush_all is a broadcast with its own noreply handling: not a key-addressed call
+        kind = ("Pooled", "Hash1", "HashPooled")[i % 3]
+        run_history(Client, h, dnr=(i % 2 == 1), pfx=(b"" if i % 3 else b"ns:"), idx=len(hists) + i, out=out, kind=kind)
+        nwrap += 1
+    ctx.count("wrapper-histories", nwrap)
     if not ctx.lean.build_ok:
         ctx.finish()
     lines = []
     for o in out:
         lines += o[4] + o[5] + o[6]
     res = iter(ctx.driver.batch(lines))
-    for (idx, dnr, pfx, steps, spec_lines, cs_lines, feed_lines, feed_want) in out:
+    for (idx, dnr, pfx, steps, spec_lines, cs_lines, feed_lines, feed_want, kind) in out:
         spec_out = [next(res) for _ in spec_lines][1:]
         cs_out = [next(res) for _ in cs_lines][1:]
         feed_out = [next(res) for _ in feed_lines]
         hist_desc = [(c["op"] + ":" + str(c.get("k", c.get("dt", "")))) for c, _ in steps]
-        ctx.case(tuple(map(repr, (c for c, _ in steps))) + (dnr, pfx), nontrivial=steps[-1][0]["op"] != "ADVANCE",
+        ctx.case(tuple(map(repr, (c for c, _ in steps))) + (dnr, pfx, kind), nontrivial=steps[-1][0]["op"] != "ADVANCE",
                  sample={"history": hist_desc, "results": [r for _, r in steps], "default_noreply": dnr, "prefix": hx(pfx)} if idx in (3, 2500, 20000) else None)
         ctx.count(f"len={len(steps)}")
         for n, ((c, real), so, co) in enumerate(zip(steps, spec_out, cs_out)):
             if real is None:
                 continue
             ctx.count("op:" + c["op"])
-            case = {"history": hist_desc[:n + 1], "step": n, "call": repr(c), "default_noreply": dnr, "prefix": hx(pfx), "impl": real}
+            case = {"class": kind, "history": hist_desc[:n + 1], "step": n, "call": repr(c), "default_noreply": dnr, "prefix": hx(pfx), "impl": real}
             if so != "ok res=" + real:
-                ctx.violation("return value differs from the documented contract on the abstract map", dict(case, spec=so), tags=["op:" + c["op"]])
+                ctx.violation("return value differs from the documented contract on the abstract map", dict(case, spec=so), tags=["op:" + c["op"], "class:" + kind])
                 break
-            if not co.startswith("ok res=" + real + " "):
+            if kind == "Client" and not co.startswith("ok res=" + real + " "):
                 ctx.disagreement("Lean client∘server model differs from the implementation", dict(case, model=co), theorem="C05_client_server_refines_absmap")
                 break
         for fl, fw, fo in zip(feed_lines, feed_want, feed_out):
